@@ -1,5 +1,6 @@
 import Model.Network
 import Proofs.Loop
+import Props.C14
 
 /-!
 # C17 — loop connections compute the accumulated repeated sub-network
@@ -358,5 +359,25 @@ theorem overwrite_loop_is_unrolled (range : List (Layer α)) (hne : range ≠ []
     · intro c y _ hy
       exact hshape c y hy
     · exact hshape x o0 h0
+
+/-! ### the re-entry of a flattened output (a range that ends in a spatial layer in front of a dense layer) -/
+
+/-- **a flattened output re-enters a spatial layer `a` re-folded row-major**: when the range ends in a spatial layer in front of a
+    dense layer (its output is the flat vector `v`) and layer `a` reads `c × h × w` maps, the next iteration runs on the
+    tensor of shape `c × h × w` whose row-major sequence is exactly `v` — for every `c`, `h`, `w` (any number of channels and
+    columns), plus the original input when input skips are on -/
+theorem prep_refolds_row_major (c h w : Nat) (v : V1 α) (hv : v.length = c * h * w) (actInto : Tensor α) :
+    ∃ r, prep (.triple c h w) false actInto (⟨.single v.length, .single v⟩ : Tensor α) = .ok r ∧
+      r.shape = .triple c h w ∧ r.Wf ∧ r.flat = v := by
+  obtain ⟨r, hr, hs, hw, hf⟩ := C14.reshape_vec_to_3d c h w v hv
+  refine ⟨r, ?_, hs, hw, hf⟩
+  simp [prep, hr]
+
+theorem prep_refolds_then_adds (c h w : Nat) (v : V1 α) (hv : v.length = c * h * w) (actInto : Tensor α) :
+    ∃ r, (⟨.single v.length, .single v⟩ : Tensor α).reshape (.triple c h w) = .ok r ∧ r.flat = v ∧
+      prep (.triple c h w) true actInto (⟨.single v.length, .single v⟩ : Tensor α) = r.add actInto := by
+  obtain ⟨r, hr, _, _, hf⟩ := C14.reshape_vec_to_3d c h w v hv
+  refine ⟨r, hr, hf, ?_⟩
+  simp [prep, hr]
 
 end C17
